@@ -2245,6 +2245,16 @@ arithmetic overflow. non-trivial = evaluation changed the tree".to_owned();
 		check_orders(cx, t, b);
 		check_e2e(cx, t, b);
 	}
+	// constant merges at the ends of i64 around an unvalued name
+	{
+		let corners = merge_corner_cases();
+		for (k, (t, b)) in corners.iter().enumerate()
+		{
+			check_orders(cx, t, b);
+			if k % 8 == 0 {check_e2e(cx, t, b);}
+		}
+		cx.report.hit_n("constant merges at the ends of i64 around an unvalued name", corners.len() as u64);
+	}
 	let n = if cx.thorough() {300_000} else {30_000};
 	for i in 0..n
 	{
@@ -2469,6 +2479,53 @@ fn fixed_cases() -> Vec<(T, Binds)>
 		(bin(DIV, bin(DIV, bin(DIV, x(), c(3)), y()), c(5)), later(&[("x", 1000), ("y", -7)])),
 		(bin(MUL, bin(MUL, x(), c(3)), bin(MUL, c(5), y())), later(&[("x", 11), ("y", -7)])),
 	]
+}
+
+/// chains in which the simplifier merges two constants around a still unvalued name, with constants whose merge (product, sum,
+/// shift total) leaves i64 or lands exactly on its ends, and values of the name at the ends of i64: `(x / 2^32) / 2^32`,
+/// `(x * a) * b`, `(x + MAX) + 1`, `(x << 40) << 30`, `(x % a) % b` …
+fn merge_corner_cases() -> Vec<(T, Binds)>
+{
+	let big: [i64; 13] = [1 << 31, 1 << 32, 1 << 33, 1 << 62, i64::MAX, i64::MIN + 1, -(1 << 32), -(1 << 31), 3037000500, -3037000500, -1, 2, i64::MIN];
+	let sh: [i64; 8] = [1, 31, 32, 33, 40, 62, 63, 64];
+	let xs: [i64; 9] = [i64::MAX, i64::MIN, -i64::MAX, 0, 1, -1, 1 << 32, (1 << 62) + 12345, -(1 << 62) - 54321];
+	let c = T::C;
+	let mut out = Vec::new();
+	for &xv in &xs
+	{
+		let b1 = |v: i64| -> Binds {vec![("x".to_owned(), Bind::Later(v))].into_iter().collect()};
+		for op in [DIV, MUL, ADD, SUB, MOD]
+		{
+			for &a in &big
+			{
+				for &b in &big
+				{
+					out.push((bin(op, bin(op, id("x"), c(a)), c(b)), b1(xv)));
+				}
+			}
+		}
+		for (o1, o2) in [(ADD, SUB), (SUB, ADD), (MUL, DIV), (DIV, MUL)]
+		{
+			for &a in &big[..8]
+			{
+				for &b in &big[..8]
+				{
+					out.push((bin(o2, bin(o1, id("x"), c(a)), c(b)), b1(xv)));
+				}
+			}
+		}
+		for (o1, o2) in [(SHL, SHL), (SHR, SHR), (SHL, SHR), (SHR, SHL)]
+		{
+			for &a in &sh
+			{
+				for &b in &sh
+				{
+					out.push((bin(o2, bin(o1, id("x"), c(a)), c(b)), b1(xv)));
+				}
+			}
+		}
+	}
+	out
 }
 
 pub fn run(id: &str, cx: &mut Cx)
